@@ -345,6 +345,28 @@ def scan_effects(ctx, module, construct, bodies, tainted, stop, tuple_param, dep
     `tuple_param` = the constructor's children tuple (constant index into it is operator arity, not a string index).
     Calls to helper functions defined in the same module are followed (inlining bound 2)."""
     found_effect = False
+    # taint closure: local names bound (also by tuple unpacking / loops / walrus) to expressions over tainted names are tainted
+    tainted = set(tainted)
+    changed = True
+    while changed:
+        changed = False
+        for body in bodies:
+            for a in ast.walk(body):
+                pairs = []
+                if isinstance(a, ast.Assign):
+                    pairs = [(t_, a.value) for t_ in a.targets]
+                elif isinstance(a, (ast.AnnAssign, ast.AugAssign)) and a.value is not None:
+                    pairs = [(a.target, a.value)]
+                elif isinstance(a, ast.NamedExpr):
+                    pairs = [(a.target, a.value)]
+                elif isinstance(a, (ast.For, ast.comprehension)):
+                    pairs = [(a.target, a.iter)]
+                for tgt, val in pairs:
+                    if any(isinstance(n, ast.Name) and n.id in tainted for n in ast.walk(val)):
+                        for n in ast.walk(tgt):
+                            if isinstance(n, ast.Name) and n.id not in tainted:
+                                tainted.add(n.id)
+                                changed = True
 
     def refs(node):
         return any(isinstance(n, ast.Name) and n.id in tainted for n in ast.walk(node))
@@ -397,8 +419,14 @@ def scan_effects(ctx, module, construct, bodies, tainted, stop, tuple_param, dep
                               f"slice guarded by {need}")
                 else:
                     idx = nsrc(node.slice)
-                    guarded = any(pos and (t.startswith(f"0 <= {idx} < len(") or t == f"{idx} < len({nsrc(node.value)})") for t, pos in ft)
-                    guarded = guarded or _in_try_catching(node, ("IndexError", "LookupError"), stop)
+                    upper = any(pos and (t.startswith(f"0 <= {idx} < len(") or t == f"{idx} < len({nsrc(node.value)})") for t, pos in ft)
+                    lower = isinstance(strip_casts(node.slice), ast.Constant) or any(
+                        (pos and (t.startswith(f"0 <= {idx} <") or t in (f"{idx} >= 0", f"0 <= {idx}", f"{idx} > -1"))) or ((not pos) and t in (f"{idx} < 0", f"0 > {idx}")) for t, pos in ft)
+                    if upper and not lower:
+                        ctx.viol("R3-wraparound", construct, f"negative index: {nsrc(node)}", site(node),
+                                 f"`{nsrc(node)}` is guarded from above only: a negative SMT integer index wraps around in Python (s[-1] is the last character) where SMT-LIB str.at yields the empty string")
+                        continue
+                    guarded = upper or _in_try_catching(node, ("IndexError", "LookupError"), stop)
                     ctx.check(guarded, "R3-may-raise", construct, f"IndexError: {nsrc(node)}", site(node),
                               "indexing a string with an SMT integer raises IndexError when out of range (SMT-LIB: empty string); no bounds guard or handler dominates it",
                               "index guarded")
@@ -1001,6 +1029,90 @@ def rule_r11(ctx):
         raise Unrecognised("C05.R11", c, f"expected one quantifier-emitting constructor (found {n})")
 
 
+def rule_r12(ctx, prefix="R12"):
+    """Verdicts taken from a Z3 satisfiability query: TRUE needs `not f` unsat (validity); FALSE may come from `f` unsat or (as is_valid does) from `not f` sat.
+    `f` sat -> TRUE is wrong: for under-specified terms (division by zero) both f and not f are satisfiable."""
+    total = 0
+    for rel in (Z3H, "src/isla/evaluator.py"):
+        m = ctx.repo.module(rel, f"C05.{prefix}")
+        for q, fn in m.functions():
+            if not isinstance(fn, ast.FunctionDef):
+                continue
+            queries = {}
+            for a in walk_local(fn):
+                if isinstance(a, ast.Assign) and isinstance(a.value, ast.Call) and call_name(a.value) == "z3_solve" and a.value.args:
+                    tgt = a.targets[0]
+                    name = tgt.elts[0].id if isinstance(tgt, ast.Tuple) and isinstance(tgt.elts[0], ast.Name) else (tgt.id if isinstance(tgt, ast.Name) else None)
+                    arg = a.value.args[0]
+                    if name is None:
+                        continue
+                    negated = None
+                    if isinstance(arg, ast.List) and len(arg.elts) == 1:
+                        negated = isinstance(arg.elts[0], ast.Call) and call_name(arg.elts[0]) == "z3.Not"
+                    queries[name] = (negated, a)
+            if not queries:
+                continue
+            for r in [x for x in walk_local(fn) if isinstance(x, ast.Return)]:
+                v = src(r.value)
+                verdict = "TRUE" if v.endswith("ThreeValuedTruth.true()") or v.endswith("ThreeValuedTruth.true())") else ("FALSE" if "ThreeValuedTruth.false()" in v else None)
+                if verdict is None:
+                    continue
+                for name, (negated, a) in queries.items():
+                    for f_ in facts(r):
+                        if not f_.positive:
+                            continue
+                        mm = _re.fullmatch(rf"{name} == z3\.(sat|unsat)", f_.text)
+                        if not mm:
+                            continue
+                        total += 1
+                        outcome = mm.group(1)
+                        construct = f"{rel}:{q}"
+                        if negated is None:
+                            raise Unrecognised(f"C05.{prefix}", construct, f"query `{src(a)[:60]}` is not a single formula / its negation")
+                        okc = (negated and ((outcome == "unsat" and verdict == "TRUE") or (outcome == "sat" and verdict == "FALSE"))) or ((not negated) and outcome == "unsat" and verdict == "FALSE")
+                        ctx.check(okc, f"{prefix}-z3-verdict-mapping", construct, f"{'not f' if negated else 'f'} {outcome} -> {verdict}", site(r),
+                                  f"the verdict {verdict} is derived from `{'not f' if negated else 'f'}` being {outcome}: satisfiability of a ground formula is not its truth - for under-specified terms "
+                                  "((div 7 0), (mod x 0)) Z3 finds both the atom and its negation satisfiable, so the atom AND its negation are judged TRUE", "TRUE only from `not f` unsat; FALSE from `f` unsat or `not f` sat")
+    if total < 2:
+        raise Unrecognised(f"C05.{prefix}", Z3H, f"only {total} verdicts derived from z3_solve found (expected is_valid's two)")
+
+
+def rule_r13(ctx):
+    """construct_result: each child closure is called with ITS OWN parameters in ITS OWN order (looked up by name in the parent's tuple); the parent's
+    instantiation tuple must never be handed to a child as it is - parent and child orders both come from set iteration and need not agree."""
+    from ..core import whole_origins
+
+    f = ctx.repo.func(Z3H, "construct_result", "C05.R13")
+    c = f"{Z3H}:construct_result"
+    clo = next((n for n in ast.walk(f) if isinstance(n, ast.FunctionDef) and n.name == "closure"), None)
+    if clo is None:
+        raise Unrecognised("C05.R13", c, "closure not found")
+    vp = clo.args.args[0].arg
+    calls = [x for x in calls_in(clo) if isinstance(x.func, ast.Name) and x.func.id == "child_result" and len(x.args) == 1]
+    if len(calls) != 1:
+        raise Unrecognised("C05.R13", c, f"expected one call child_result(<instantiations>) (found {len(calls)})")
+    arg = calls[0].args[0]
+    wo = whole_origins(clo, arg)
+    whole = (vp, True) in wo
+    ctx.check(not whole, "R13-child-params-by-name", c, "child gets its own parameters, looked up by name", site(calls[0]),
+              f"the parent's instantiation tuple `{vp}` can reach `child_result(...)` unchanged: the child's parameter order (its own set iteration order) need not be the parent's, so two "
+              "variables are swapped for that sub-term (depends on the variable names' hashes)", f"elements `{vp}[<index of the child's parameter>]` only")
+    idx = [x for x in ast.walk(clo) if isinstance(x, ast.Subscript) and src(x.value) == vp]
+    if not idx:
+        raise Unrecognised("C05.R13", c, f"no indexed read of {vp} found")
+    for x in idx:
+        t = src(x.slice)
+        ok = t.startswith("params.index(") or _re.fullmatch(r"\w+", t) is not None
+        by_name = t == "params.index(str(child_param))"
+        if by_name:
+            ctx.ok("R13-child-params-by-name", c, f"{src(x)}", site(x), "position of the child's parameter name in the parent's parameter tuple")
+        elif not ok:
+            raise Unrecognised("C05.R13", c, f"index expression {t} not understood")
+    ps = [a for a in walk_local(f) if isinstance(a, (ast.Assign, ast.AnnAssign)) and src(a.targets[0] if isinstance(a, ast.Assign) else a.target) == "params"]
+    ok = len(ps) == 1 and "for child_params, _ in children_results for param in child_params" in " ".join(src(ps[0].value).split())
+    ctx.check(ok, "R13-child-params-by-name", c, "parent parameters = union of the children's parameters", site(f), "params must collect every child's parameters", "union")
+
+
 def enclosing_function_of(node):
     cur = getattr(node, "_parent", None)
     while cur is not None and not isinstance(cur, (ast.FunctionDef, ast.AsyncFunctionDef, ast.Lambda)):
@@ -1013,6 +1125,8 @@ def run(ctx) -> str:
     ctx.guarded("R9", lambda: rule_r9(ctx))
     ctx.guarded("R10", lambda: rule_r10(ctx))
     ctx.guarded("R11", lambda: rule_r11(ctx))
+    ctx.guarded("R12", lambda: rule_r12(ctx))
+    ctx.guarded("R13", lambda: rule_r13(ctx))
     ctx.guarded("R7", lambda: rule_r7(ctx))
     from . import c17
 
